@@ -54,8 +54,9 @@ CHECKS = {
              "admissible sizes read back by the independent extractor, TOTP keys, application secrets, generated words/phrases, django_disabled "
              "suffixes, libpass salts) the run sees draws and value side by side: size and alphabet; the draws must be able to cover the declared "
              "space; when draw space and value space have the same size, uniformity is equivalent to injectivity, which is checked over the "
-             "sample, by flipping single bits of a recorded answer and replaying (the value must change), and -- for spaces <= 2^16 -- over ALL "
-             "draws of the source (exhaustive sub-case); otherwise per-position frequencies and bit correlation between adjacent symbols with "
+             "sample and by flipping single bits of a recorded answer and replaying (the value must change); for spaces <= 2^16 ALL "
+             "answers of the source are enumerated and every declared value must be produced equally often (exhaustive sub-case, also when "
+             "draw space and value space differ in size); otherwise per-position frequencies and bit correlation between adjacent symbols with "
              "Chernoff/7-sigma bounds; requested entropy is carried by the draws; all-zero / all-one / counter / single-bit sources never yield a "
              "malformed value; a CryptContext refuses every way of pinning a salt and keeps drawing fresh ones. Weaker fit: no schedule or "
              "fault decides C06; the technique contributes ownership of the random-source seam.",
@@ -121,8 +122,11 @@ CHECKS = {
              "duplicates, drops and reorders submissions, an attacker replaying and forging codes, server clock steps and restarts from "
              "the durable record. Every server decision of the real TOTP.match() is compared with a reference matcher written from the "
              "statement, evaluated at the time the server's clock actually returned (recorded at the seam); accepted counters must strictly "
-             "increase per account; in fault-free runs an in-sync device's fresh code must be accepted at first delivery. One seed = one "
-             "replayable history; failures are minimised to a replay file.",
+             "increase per account; in fault-free runs an in-sync device's fresh code must be accepted at first delivery. Two steered "
+             "scenarios reach what random histories cannot: 'collide' lets the reference search 1500-4000 counters for two with the same "
+             "code, moves the clock into the later one's period, submits and replays it (earliest-first clause); 'sweep' enumerates a small "
+             "box exhaustively (periods 1-5 x windows 0-7 x skews -2..2 x last-counter offsets x every time in a range x 7 neighbouring "
+             "codes). One seed = one replayable history; failures are minimised to a replay file.",
         note="Trusted: reference HOTP and the 25-line reference matcher. Bounds: <=3 accounts, <=120 ops/run, periods 1-3600, windows 0-900, tokens as digit strings/bytes/non-negative ints.",
         design_ref="DESIGN.md section 4, C14"),
     "C15": dict(
@@ -142,7 +146,7 @@ CHECKS = {
              "path, an unbound copy -- starting from generated files (comments, blank lines, duplicates, CRLF, no final newline, leading blanks, "
              "malformed lines), both classes, utf-8/latin-1, text/bytes arguments, default and custom contexts with deprecated schemes. The file "
              "system, its mtime clock (granularity 1 ns .. 2 s, ticks below/above it, steps back), an external editor rewriting the file directly "
-             "and armed I/O faults are simulated. After every operation the export (and after every save the file) is parsed by an independent "
+             "and armed I/O faults are simulated; copies are saved to / loaded from a second path and objects are re-bound. After every operation the export (and after every save the file) is parsed by an independent "
              "20-line reader and must equal the document model's users/hashes, each once, with untouched items in original order; return values, "
              "check_password answers, hash upgrade on deprecated schemes, refusal of invalid names, atomic load, intact memory after a failed "
              "save and the load_if_changed/mtime contract are checked.",
@@ -168,7 +172,8 @@ CHECKS = {
         technique="deterministic simulation of real threads: seeded baton-passing scheduler pre-empting at sys.settrace line/opcode events (sticky walk, PCT, hot-spot, uniform), fork-per-run fresh first-use state, cooperative locks; per-thread outcome vs single-thread outcome",
         text="Each run forks a process in which nothing has been used yet, builds one first-use object (LazyCryptContext with/without "
              "onload, a shipped preset, a multi-backend hasher, a lazy base64 engine, an unloaded registry name, a context's record "
-             "caches, the digest-info cache) or an initialised shared context with a non-reentrant crypt(3) model, and lets 2-3 real "
+             "caches, the digest-info cache, passlib.pwd's word sets, a libpass context) or an initialised shared context with a "
+             "non-reentrant crypt(3) model, and lets 2-3 real "
              "threads make their first calls while a seeded scheduler decides at every source line of /repo code who runs next. Every "
              "lock object the library keeps is replaced by a cooperative lock with the same semantics, so parked threads never block "
              "the simulator and deadlocks are detected. Each thread's outcomes must equal those of the same calls made by one thread in "
